@@ -8,9 +8,11 @@ ops
   generating  alts, V, av, nests → {"G":…, "Gy":…, "alone":[…], "logG":[…|null]}
   ordered   cdf ∈ logit|probit ; x, tau, labels, diffs=[[label,bits]…] → {"dict":[[label,bits]…]} or error
   validate  kind ∈ nested|cnl ; alts, nests → {"ok":bool, "alone":[…]} or error
+  alpharow  alts, nests (cross-nested) → {"table":[[label,[bits…]]…]} (get_alpha_values per alternative of the choice set) or error
+  corr      alts, nests (nested), mu → {"corr":[[bits…]…]} (rows/columns in the order of the choice set) or error
 -/
 import Driver.Common
-import Model.Models
+import Model.ModelsFamily
 open Lean Drv Models
 
 def nan : Float := 0.0 / 0.0
@@ -140,8 +142,27 @@ def handle (j : Json) : Except String Json := do
         ("G", fbits (nestedGofV nests al c.V c.av)),
         ("Gy", fbits (nestedG nests al c.av y)),
         ("alone", jInts al),
+        ("euler", fbits (eulerSum nests al c.V c.av)),
+        ("eulerAll", fbits (eulerSumAllKeys nests al c.V c.av)),
         ("logG", jArr (c.alts.map fun i =>
             if avail c.av i then fbits (nestedLogG nests c.V c.av i) else Json.null))])
+  | "alpharow" =>
+    let alts ← intList (← j.getObjVal? "alts")
+    let arg ← parseArg parseCNest j
+    match resolve (ν := CNest Float) CNest.alts alts arg with
+    | .error e => pure (errJson e)
+    | .ok o =>
+      pure (Json.mkObj [("table", jArr ((alphaTable o.nests o.choiceSet).map fun p =>
+        jArr [jInt p.1, jFloats p.2]))])
+  | "corr" =>
+    let alts ← intList (← j.getObjVal? "alts")
+    let arg ← parseArg parseNest j
+    let mu ← getFloat j "mu"
+    match resolve (ν := Nest Float) Nest.alts alts arg with
+    | .error e => pure (errJson e)
+    | .ok o =>
+      pure (Json.mkObj [("corr", jArr (o.choiceSet.map fun i =>
+        jFloats (o.choiceSet.map fun k => nestedCorr o.nests mu i k)))])
   | "ordered" =>
     let cdf ← getStr j "cdf"
     let x ← getFloat j "x"
